@@ -223,6 +223,28 @@ CLAIMED = {
              'deterministic (C07 R-PURE-4)',
         technique='protocol-coherence analysis over the class lattice + '
                   'clone templates + LR(1) injectivity of the printers'),
+    'C12': dict(
+        partial=True,
+        text='Necessary conditions only. The post-order step of '
+             'compute_SCCs is interpreted abstractly on symbolic '
+             'bookkeeping state (roles lowlink / disc / closed set / '
+             'component stack discovered from the code): every lowlink '
+             'update is monotone (min with the current value), uses the '
+             'successor being scanned and is dominated by the closed-set '
+             'test; a component is emitted exactly under lowlink[v] == '
+             'disc[v]; on emission the root and every popped node are '
+             'yielded and closed and the pop loop compares discovery '
+             'times; a non-root is pushed; the argument is not modified. '
+             'Breaking any of them gives a wrong partition on some graph '
+             'and insertion order. NOT decided: that these conditions '
+             'suffice (partition and mutual reachability for every '
+             'digraph).',
+        ref='3-C12',
+        note='trusted: nothing about the numbering / DFS driver is '
+             'decided; another SCC algorithm yields INCONCLUSIVE, not a '
+             'verdict',
+        technique='per-step abstract interpretation of the post-order block '
+                  '+ monotonicity / guard-dominance / pairing rules'),
     'C13': dict(
         partial=True,
         text='DiGraph is analysed at the level of its adjacency dictionary: '
@@ -378,9 +400,6 @@ NA = {
            'K and f; the only code-shape facts behind them are decided under '
            'C01-C03/C08; static analysis has no necessary structural clause '
            'of C04 itself',
-    'C12': 'correctness of an iterative lowlink SCC algorithm is a loop '
-           'invariant over all graphs; one-token changes flip correctness '
-           'without changing any shape a sound static rule could name',
 }
 
 
